@@ -333,7 +333,13 @@ func RunEnum[C any](t *testing.T, id string, cases []C, exec func(C) *Failure, n
 // Bound is the wait used to decide "no answer": short during generated search
 // (such a verdict is flagged Timing and confirmed by the driver in an isolated
 // replay), long in replay mode.
+// boundOverride, when set (native fuzz targets), replaces Bound(): time-bounded verdicts are ignored there.
+var boundOverride time.Duration
+
 func Bound() time.Duration {
+	if boundOverride > 0 {
+		return boundOverride
+	}
 	if os.Getenv("VERIF_REPLAY") != "" {
 		return 3 * time.Second
 	}
